@@ -67,17 +67,29 @@ class C03(Property):
     lean_module = "RosuModel.Props.C03"
     namespace = "Rosu.C03"
     design_ref = "5.3"
-    required_theorems = ["title_line_sets_title", "artist_line_sets_artist"]
+    required_theorems = ["title_line_sets_title", "artist_line_sets_artist", "edit_survives_metadata", "edit_frame_metadata",
+                         "edit_survives_colours", "edit_frame_colours", "edit_survives_editor", "edit_frame_editor",
+                         "edit_survives_difficulty", "edit_frame_difficulty", "edit_survives_events", "edit_frame_events",
+                         "edit_survives_general", "edit_frame_general", "edit_survives_records"]
     partial_theorems = {
-        "edit_survives / edit_frame": "proved so far for metadata text fields at line level (a representable text — its own trim, no line feed — comes back exactly from the line the "
-            "encoder writes, whatever colons, `//`, brackets or header-like text it contains). For the other field kinds and for the frame clause the statement is evaluated on the "
-            "implementation (oracle `edit`: every edited field reads back the edited value; every other preserved field equals the unedited round trip) and on the model by the `edit` "
-            "correspondence (identical text and identical re-decoded map)",
+        "edit_survives_editor / _difficulty / _events / _general / _records (and the matching edit_frame_*)":
+            "law-dependent: proved for every number codec satisfying CodecLaws (+ IntPrintLaw for AudioLeadIn), shown satisfiable by Lemmas/ToyCodec.lean; not proved of Rust's "
+            "Display/FromStr. edit_survives_metadata / edit_frame_metadata (ten fields, any text that is its own trim without line feed — colons, `//`, brackets, header- and "
+            "version-like text, the empty text; positive ids) and the colours theorems need no law",
+        "edit_survives_* / edit_frame_* are section level": "an edit replaces a section record by a representable record; the block the encoder writes for it reads back as exactly that record, and "
+            "any observation the edit did not change reads as for the unedited record. edit_survives_records lifts this to the file (encode, bytes, reader, framing, Beatmap decoder) "
+            "for the record fields, assuming only the shape of the [TimingPoints]/[HitObjects] blocks",
+        "edit_frame (timing and hit-object views)": "NOT yet a theorem (`def edit_frame_objects_statement : Prop`): that an edit other than mode / slider multiplier / tick rate leaves the "
+            "re-decoded hit objects and timing points unchanged. Evaluated on the implementation (oracle `edit`: every edited field reads back the edited value; every other preserved "
+            "field equals the unedited round trip) and on the model by the `edit` correspondence (identical text and identical re-decoded map)",
     }
-    level_text = ("Decoder+encoder model compared with the code on decode → edit through the public fields → encode → decode (identical text and map); Lean lemma for metadata text lines. "
+    level_text = ("Lean 4 theorems: for each of the six record sections, editing the section record to any representable value and round-tripping the encoded block gives exactly the "
+                  "edited record, and leaves every observation the edit did not touch as it was (metadata also field by field: ten fields, one edited, nine unchanged); lifted to the file "
+                  "for the record fields (edit_survives_records). Sections with floats are proved for every lawful number codec. The frame clause for hit objects and timing points is not yet "
+                  "a theorem. Decoder+encoder model compared with the code on decode → edit through the public fields → encode → decode (identical text and map). "
                   "The property is evaluated on the real code for single- and multi-field edits drawn from per-field generators (strings with ':', '//', ',', quotes, brackets, header- and "
                   "version-like text, non-ASCII; boundary numbers; flags, mode, countdown; bookmarks; colours; breaks).")
-    technique = "Lean 4 model with `edit` correspondence; line-level lemma; implementation-level edit/frame oracle"
+    technique = "Lean 4 proof (section- and record-file-level edit/frame theorems; law-dependent where floats are printed) + `edit` correspondence + implementation-level edit/frame oracle"
     trusted_base = [
         "Lean 4.33.0 kernel; axioms ⊆ {propext, Classical.choice, Quot.sound} per #print axioms",
         "hand-written decode + encode models tied to /repo by the `edit` differential of this run",
